@@ -35,6 +35,15 @@ TARGETS = [
     ("parentrm", "", "", "parentrm b a"),
 ]
 QUICK_ALWAYS = ["roa", "rollactivate", "cainit"]
+# single failed write while the aggregate cache lags one command behind: `<op> ;; <earlier op>` runs the
+# earlier (accepted) command right before the operation with no read in between (domain kvcold)
+STALE_TARGETS = [
+    ("roa", "", "", "roa a +4:v4:4.0/24 -1:v4:1.0/24 ;; aspa a +2:65000"),
+    ("aspa", "", "", "aspa a +1:65000 ;; roa a +3:v4:3.0/24"),
+    ("shrink", "", "", "childres a b 3 ;; roa a +4:v4:4.0/24"),
+    ("rollinit", "", "", "rollinit b ;; roa b +3:v4:3.0/24"),
+    ("suspend", "", "", "childsuspend a b ;; aspa a +1:65000"),
+]
 # file-system cuts (the RRDP and rsync writers of the publication server): target ops whose own
 # execution or whose tasks write the repository
 FS_TARGETS = [
@@ -146,10 +155,12 @@ def check(ctx):
             plan = [(t, "crash", "kv", "all" if t[0] in ("roa", "cainit") else "sample8") for t in TARGETS if t[0] in names]
             plan += [(t, "once", "kv", "sample2") for t in TARGETS if t[0] in names]
             plan += [(FS_TARGETS[0], "crash", "fs", "all"), (rnd.choice(FS_TARGETS[1:]), "crash", "fs", "sample4"),
-                     (FS_TARGETS[0], "once", "fs", "sample5")]
+                     (FS_TARGETS[0], "once", "fs", "sample5"),
+                     (STALE_TARGETS[0], "once", "kvcold", "sample8"), (rnd.choice(STALE_TARGETS[1:]), "once", "kvcold", "sample3")]
         else:
             plan = [(t, m, "kv", "all") for t in TARGETS for m in ("crash", "once")]
             plan += [(t, m, "fs", "all") for t in FS_TARGETS for m in ("crash", "once")]
+            plan += [(t, "once", "kvcold", "all") for t in STALE_TARGETS]
         texts = [scenario(*p) for p in plan]
         corpus = sorted((vlib.VERIF / "corpus" / "fault").glob("*.ops"))
         texts = [c.read_text() for c in corpus] + texts
@@ -162,6 +173,8 @@ def check(ctx):
     ctx.assumptions += [
         "every single key-value mutation is atomic (temp file + rename on disk; map insert in memory): torn writes are not modelled",
         "cuts are enumerated on the disk back-end (forked data directory); the memory back-end shares the mutation hooks",
+        "domain kvcold: a single failed write hits the operation while the aggregate cache lags one accepted command behind (two commands in "
+        "direct succession, no read in between) - the state every view shows afterwards must still be the replay of the log",
         "file-system cuts (the RRDP/rsync writers): crash = every later file-system mutation fails, once = only that one; the tree on disk is "
         "checked at the cut (notification names existing snapshot/deltas with the stated hashes) and after recovery; the full "
         "RRDP contract per cut (delta chains, retention) is C11's",
